@@ -169,7 +169,15 @@ async fn run_remote(
         return Ok(());
     }
 
-    let dirs = collect_dirs(&plan.transfer);
+    // Remote commands are text: a name that is not valid UTF-8 cannot be spelled in
+    // one, and its lossy rendering names some OTHER path. Such a file is reported as
+    // failed instead of being delivered (or staged) under a different name.
+    let (sendable, unsendable): (Vec<PathBuf>, Vec<PathBuf>) = plan
+        .transfer
+        .iter()
+        .cloned()
+        .partition(|p| p.to_str().is_some());
+    let dirs = collect_dirs(&sendable);
     match dir {
         Dir::Push => create_remote_dirs(host, remote_root, &dirs).await?,
         Dir::Pull => create_local_dirs(local_root, &dirs)?,
@@ -177,8 +185,14 @@ async fn run_remote(
 
     let semaphore = Arc::new(Semaphore::new(opts.jobs));
     let progress = TransferProgress::new(plan.transfer.len() as u64);
-    let mut handles = Vec::with_capacity(plan.transfer.len());
-    for rel in &plan.transfer {
+    for rel in &unsendable {
+        progress.record_err(
+            &rel.display().to_string(),
+            "file name is not valid UTF-8 and cannot be named in a remote command",
+        );
+    }
+    let mut handles = Vec::with_capacity(sendable.len());
+    for rel in &sendable {
         let mtime = src_meta.get(rel).map(|m| m.mtime);
         let remote_file = format!("{}/{}", remote_root, rel.display());
         let local_file = local_root.join(rel);
